@@ -751,6 +751,68 @@ pub fn builder_orders_part(t: &mut Tally, prop: &str) {
                             }
                         }
                     }
+                    // "last call wins": a setter called twice, through either alias, leaves only
+                    // the later value (audio codec None after a real codec = no audio)
+                    for kind in 0..4usize {
+                        for a1 in [false, true] {
+                            for a2 in [false, true] {
+                                for place in 0..2usize {
+                                    if (kind == 2 && (a1 || a2)) || (kind == 3 && (!meta || a1)) {
+                                        continue;
+                                    }
+                                    k += 1;
+                                    t.evaluations += 1;
+                                    let s = RecSink::default();
+                                    let st = s.0.clone();
+                                    let other = if codec == VCodec::H264 { VCodec::Vp9 } else { VCodec::H264 };
+                                    let decoy = |b: MuxerBuilder<RecSink>| -> MuxerBuilder<RecSink> {
+                                        match kind {
+                                            0 => if a1 { b.set_video_track(vcodec(other), 320, 240, 25.0) } else { b.video(vcodec(other), 320, 240, 25.0) },
+                                            1 => {
+                                                let d = if audio == Some(ACodec::AacLc) { ACodec::Opus } else { ACodec::AacLc };
+                                                if a1 { b.set_audio_track(acodec(d), 44100, 1) } else { b.audio(acodec(d), 44100, 1) }
+                                            }
+                                            2 => b.with_fast_start(!fast),
+                                            _ => b.with_metadata(Metadata::new().with_title("decoy").with_language("fra").with_creation_time(1)),
+                                        }
+                                    };
+                                    let mut b = MuxerBuilder::new(s);
+                                    if place == 0 {
+                                        b = decoy(b);
+                                    }
+                                    for step in 0..4usize {
+                                        if place == 1 && step == kind {
+                                            b = decoy(b);
+                                        }
+                                        let al = step == kind && a2;
+                                        b = match step {
+                                            0 => if al { b.set_video_track(vcodec(codec), cfg.width, cfg.height, 30.0) } else { b.video(vcodec(codec), cfg.width, cfg.height, 30.0) },
+                                            1 => match &cfg.audio {
+                                                Some(a) => if al { b.set_audio_track(acodec(a.codec), a.rate, a.channels) } else { b.audio(acodec(a.codec), a.rate, a.channels) },
+                                                // no audio wanted: after a decoy the caller must be able to switch it off again
+                                                None if kind == 1 => if al { b.set_audio_track(AudioCodec::None, 0, 0) } else { b.audio(AudioCodec::None, 0, 0) },
+                                                None => b,
+                                            },
+                                            2 => b.with_fast_start(fast),
+                                            _ => match &cfg.meta {
+                                                Some(m) if al => b.with_metadata(Metadata::new().with_title(m.title.clone().unwrap())).set_create_time(m.time.unwrap()).set_language(m.lang.clone().unwrap()),
+                                                Some(m) => b.with_metadata(metadata(m)),
+                                                None => b,
+                                            },
+                                        };
+                                    }
+                                    let r = run_on(b, &ops, &Op::FinishInPlace);
+                                    let bytes = st.borrow().bytes.clone();
+                                    t.outcome(oracle::report::h64(&bytes) ^ 0x5a);
+                                    if r != reference.0 || bytes != reference.1 {
+                                        let what = if r != reference.0 { "results" } else { "bytes" };
+                                        let names = ["video", "audio", "fast start", "metadata"];
+                                        t.violation(&format!("{prop}/builder-override/{what}"), (3001, k), || format!("{}: {} set twice (decoy via {}, then the real value via {}; decoy {}): {what} differ from a builder given the real value only ({} vs {} bytes; results {:?} vs {:?})", cfg.short(), names[kind], if a1 { "the alias" } else { "the primary setter" }, if a2 { "the alias" } else { "the primary setter" }, if place == 0 { "first of all" } else { "directly before" }, bytes.len(), reference.1.len(), r, reference.0), || json!({"engine": "E1-builder-override", "cfg": cfg, "kind": names[kind], "decoy_alias": a1, "real_alias": a2, "place": place}));
+                                    }
+                                }
+                            }
+                        }
+                    }
                 }
             }
         }
@@ -791,7 +853,7 @@ pub fn check(ctx: &Ctx) -> i32 {
         &tally,
         Meta {
             level: "model_checking",
-            rule: "thread schedules: real OS threads run under a baton scheduler with scheduling points before every public call, inside every sink write and around every invariant-log call; all schedules up to the stated preemption bound are enumerated by stateless DFS (counts in 'counters'), each program's results, output bytes and thread-local invariant log must equal its solo run, and replaying a schedule must reproduce its record; 4 threads: every order of whole programs; 8 and 16 threads: round-robin. Same thread: every interleaving at call granularity of every ordered pair of 4 programs on one thread. Equivalent paths: for every history of a bounded accepted-only set x 20 configurations, the output of a reference run is compared byte-for-byte with a second instance, the four other finish entry points, the builder aliases, audio codec None, six sink types (incl. sinks accepting 1 or 5 bytes per write), and a muxer moved to another thread halfway; builder order: every permutation of the setter calls (video, audio, fast start, metadata) x alias choices x 16 configurations against the canonical order; encode_video/encode_audio vs explicit writes at exactly computed ticks for duration patterns up to the long run. Wall clock: the same digest of outputs under an LD_PRELOAD clock offset of 0 and +10 years (child processes). The auto-trait implication (Muxer<W>: Send for every W: Send; Sync likewise) is a generic function in this harness: it is the compiler's verdict, a build failure of the harness otherwise.".into(),
+            rule: "thread schedules: real OS threads run under a baton scheduler with scheduling points before every public call, inside every sink write and around every invariant-log call; all schedules up to the stated preemption bound are enumerated by stateless DFS (counts in 'counters'), each program's results, output bytes and thread-local invariant log must equal its solo run, and replaying a schedule must reproduce its record; 4 threads: every order of whole programs; 8 and 16 threads: round-robin. Same thread: every interleaving at call granularity of every ordered pair of 4 programs on one thread. Equivalent paths: for every history of a bounded accepted-only set x 20 configurations, the output of a reference run is compared byte-for-byte with a second instance, the four other finish entry points, the builder aliases, audio codec None, six sink types (incl. sinks accepting 1 or 5 bytes per write), and a muxer moved to another thread halfway; builder order: every permutation of the setter calls (video, audio, fast start, metadata) x alias choices x 16 configurations against the canonical order, and every setter called twice (a decoy value, then the real one; either alias; audio codec None to switch audio off again); encode_video/encode_audio vs explicit writes at exactly computed ticks for duration patterns up to the long run. Wall clock: the same digest of outputs under an LD_PRELOAD clock offset of 0 and +10 years (child processes). The auto-trait implication (Muxer<W>: Send for every W: Send; Sync likewise) is a generic function in this harness: it is the compiler's verdict, a build failure of the harness otherwise.".into(),
             bound: format!("preemption bounds as listed per setup in counters; thorough={}", ctx.thorough),
             exhaustive: true,
             assumptions: vec![
